@@ -9,227 +9,121 @@ BASELINE_OFF = ("cd /repo && env -u SYM_METANET_VERIF /venv/bin/python -m pytest
                 "--timeout=900 --continue-on-collection-errors")
 
 # id -> (technique, level text, level note, design ref)
+Q = "quick: all valid shapes with <=3 nodes/<=3 links up to isomorphism x every single-ELEMENT deviation of the base configuration (a link deviates jointly in segment count 1..3 and VSL set) + uniform configurations + the 10 harness networks; thorough: <=3 nodes/<=4 links, two deviating elements on (3,3), all 4-node shapes with <=4 links, pair excursions"
 CHECKS = {
-    "C15": (
-        "full Cartesian product of argument alphabets per engine primitive (deviation-bounded for the 16-argument speed "
-        "update), NumPy arrays in every shape the element layer produces vs casadi.DM",
-        "Exhaustive enumeration on the implementation: for each of the 14 primitives plus max and vcat every combination of "
-        "alphabet values (branch boundaries, zeros, infinities) and argument shapes is evaluated with both real engines; "
-        "values must agree within 1e-9 and be finite whenever the primitive's own 0/0 does not occur; step_speed is "
-        "explored to 2 (quick) / 3 (thorough) simultaneous excursions from two base tuples under all four None patterns.",
-        "Variables are passed as arrays/DM, parameters as plain numbers (what the element layer does).",
-        "DESIGN.md section 3, C15",
-    ),
-    "C17": (
-        "full Cartesian product of admissible argument alphabets for the origin-flow primitives on both engines, plus "
-        "exhaustive network programs x admissible deviation-bounded vectors at network level; inequality oracles",
-        "Exhaustive enumeration on the implementation: every admissible (queue, demand, control, density, speed, capacity, "
-        "T) tuple of the alphabets for mainstream, both metered variants and limited simplified origins on both engines, "
-        "and the origin flows / next queues of every network within the bound on every admissible single-excursion "
-        "vector (NumPy and compiled SX): 0 <= q <= d + w/T, q <= capacity, q = 0 at maximum density, w+ >= 0.",
-        "Alphabets include the corners where several limits are active together; tolerance 1e-9.",
-        "DESIGN.md section 3, C17",
-    ),
-    "C18": (
-        "exhaustive enumeration of shapes x controlled element positions x neutral/finite control settings x value "
-        "vectors; metamorphic equalities and a monotonicity inequality between paired real networks",
-        "Bounded exhaustive exploration on the implementation: for every valid shape within the bound, every link as a "
-        "VSL link (N in 1..3, every VSL-set option incl. empty) with infinite limits must equal the plain link; a finite "
-        "limit must not raise any next speed and must leave every other next state untouched; metered 'in'/'out' with "
-        "r=1 and limited simplified with infinite desired flow must coincide; a mainstream origin with limit inf, 1e6 or "
-        "its first-segment speed must coincide; NumPy and compiled SX on base vectors and all single excursions.",
-        "The controlled element is the only deviation from the base configuration; tolerance 1e-12 / 1e-9.",
-        "DESIGN.md section 3, C18",
-    ),
-    "C12": (
-        "exhaustive enumeration of step/compile histories on the same network objects with caller-held inputs; purity "
-        "invariants after every operation and bitwise comparison with the same step on a fresh network",
-        "Bounded exhaustive exploration of histories on real objects: every history up to length 3 (quick) / 4 (thorough) "
-        "over 16 operations (steps with 3 engines x 2 value sets x 2 option sets, simulation-loop feedback steps, "
-        "to_function) on 4 harness networks containing every element kind, plus NumPy-only histories (length 4 / 5) in "
-        "which all parameters are 0-d arrays; after every operation all caller-held arrays, dictionaries, symbols and "
-        "element/model parameters must be unchanged and every step must reproduce, bit for bit, the same step on a fresh "
-        "network.",
-        "Two value sets and two option sets; caller symbols compared by identity and printed form.",
-        "DESIGN.md section 3, C12",
-    ),
-    "C13": (
-        "exhaustive enumeration of engine-selection/step histories with counting engine proxies; one-variable reference "
-        "model of the current engine",
-        "Bounded exhaustive exploration of histories on the real module state: every history up to length 3 (quick) / 4 "
-        "(thorough) over 12 operations (use by valid/invalid name, arbitrary object, three spy instances, "
-        "get_current_engine, step with and without explicit engine) on 3 harness networks; the spies are EngineBase "
-        "subclasses delegating to the real engines. After every operation the model's `current` must be "
-        "get_current_engine() and sym_metanet.engine; a step must be computed entirely by the engine it must use (exact "
-        "per-primitive call counts, zero calls on every other spy, value types of that engine) and leave the selection "
-        "untouched.",
-        "Calls between sibling static methods inside an engine are not counted.",
-        "DESIGN.md section 3, C13",
-    ),
-    "C14": (
-        "exhaustive enumeration of network programs x all permutations of the construction calls / renamings / "
-        "turn-rate scalings; metamorphic comparison of per-element next states on the real code",
-        "Bounded exhaustive exploration on the implementation: for every valid topology/configuration within the bound, "
-        "ALL permutations of the construction-call list (<=6 calls; else all orders within 2 transpositions), "
-        "nodes-first, bulk and add_path-based construction, 4 renamings (incl. all-equal names and library auto-names) "
-        "and 4 scale factors per branching node are built through the real API and stepped (NumPy and compiled SX); "
-        "per-element next states must equal those of the base network and the recovered inflow shares must equal "
-        "beta/sum(beta).",
-        "Tolerance 0 for renaming, 1e-12 for reordering/scaling; 2 base vectors (thorough: single excursions on SX).",
-        "DESIGN.md section 3, C14",
-    ),
-    "C11": (
-        "exhaustive enumeration of network programs x option sets x value vectors with negative entries x engines; "
-        "metamorphic comparison of the real step with options against the real plain step wrapped in harness clamps",
-        "Bounded exhaustive exploration on the implementation: for every valid topology/configuration within the bound "
-        "and every option set in the tier (all sets with <=2 options and all six; thorough: all 63), the real NumPy step "
-        "and the real compiled SX/MX function with the options must equal clamp_next(plain(clamp_init(x))) with the clamps "
-        "applied by the harness to exactly the named quantities, on negated/alternating-sign base vectors and all single "
-        "excursions over alphabets that contain negative values; without options negative values must pass unclamped.",
-        "Where the plain result is NaN (negative density under a non-integer power) max(0, NaN) is engine-defined and not "
-        "compared; tolerance 1e-12.",
-        "DESIGN.md section 3, C11",
-    ),
-    "C19": (
-        "exhaustive enumeration of API histories (per-element init/step, Network.step variants, adding a link after "
-        "stepping) with to_function observed in every reached state; stateless to a length, state-matching BFS beyond",
-        "Bounded exhaustive exploration of histories on real objects: all histories over 14 operations up to length 3 "
-        "(quick) / 4 (thorough) for SX and MX, plus breadth-first search to depth 5 / 7 with states merged on a model key "
-        "(initialised?, stepped with which parameters under which topology, which dependencies were re-initialised since). "
-        "In every state the model predicts RuntimeError or function; a returned function must have no free symbols and "
-        "each element's results must equal the NumPy twin of that element's most recent step.",
-        "One network family (metered ramp, VSL link, plain link, congested destination, spare link+destination); model "
-        "of staleness from the C10 dependency relation; one admissible value vector for the numeric clause.",
-        "DESIGN.md section 3, C19",
-    ),
-    "C03": (
-        "exhaustive enumeration of network programs x compilation variants (symbol type x compactness x extra outputs x "
-        "symbolic parameters) x deviation-bounded value vectors; compiled function vs NumPy step of a twin network",
-        "Bounded exhaustive exploration on the implementation: every valid topology/configuration within the bound is "
-        "compiled by the real CasADi engine in 11 (quick) / all 24 (thorough) variants and evaluated on the base vectors "
-        "and every single excursion over the branch-boundary alphabets (zero speeds, guard region, infinite limits); every "
-        "next-state scalar is compared with the real NumPy step of a twin network.",
-        "Results are located through the layout model (C04 checks it independently); both engines producing NaN at the "
-        "model's own 0/0 counts as agreement; tolerance 1e-9.",
-        "DESIGN.md section 3, C03",
-    ),
-    "C04": (
-        "exhaustive enumeration of network programs x construction orders x compilation variants; names, sizes, free "
-        "symbols, values, feedback and level equivalence compared with a layout model derived from the construction calls",
-        "Bounded exhaustive exploration on the implementation: for every valid topology/configuration within the bound "
-        "and 3 construction orders, the real to_function result at compactness 0/1/2, with/without extra outputs, "
-        "parameters and positivity-init options, SX and MX, must have exactly the argument/result names, sizes and order "
-        "of the layout model, no free symbol, successors named after their state argument, element-distinct values "
-        "located through the model equal to the NumPy twin, F(F(x)) fed back positionally equal to two NumPy steps, and "
-        "equal result scalars across the three levels.",
-        "Layout model mc/layout.py (documented concatenation; element order = graph edge order, then origins and "
-        "destinations in node order, derived from the construction calls by a model of DiGraph insertion order).",
-        "DESIGN.md section 3, C04",
-    ),
-    "C05": (
-        "exhaustive enumeration of network programs x compactness x symbol type x positivity-init options x value "
-        "vectors; self-consistency relations between reported flows, inputs and next states of the same call",
-        "Bounded exhaustive exploration on the implementation with more_out=True: every reported link flow equals "
-        "(clamped) rho*v*lanes of the input segment, every queued origin's next queue equals w + T(d - reported q_o), "
-        "and the first-segment density update of the fed link balances with the reported flows, on every single-excursion "
-        "vector (with negative values when positivity-init is on).",
-        "Same T forwarded to to_function as to step; relations with an infinite reported flow are skipped; layout model "
-        "locates the results.",
-        "DESIGN.md section 3, C05",
-    ),
-    "C16": (
-        "exhaustive enumeration of (network program, symbolic-parameter subset, declaration order, compilation variant); "
-        "symbolic function at parameter values vs twin compiled with numbers",
-        "Bounded exhaustive exploration on the implementation: singletons, the full set and round-robin pairs of the 12 "
-        "parameters on every network within the bound, all subsets of size <=2 (thorough: all 4096 subsets) and all "
-        "declaration orders of two triples on the harness list; every result scalar (next states and flows) of the "
-        "symbolic function evaluated at two parameter value sets equals the numeric twin; trailing argument names / "
-        "stacked p follow the declared order; no free symbols.",
-        "A symbolic link parameter is shared by all links; lanes and turn rates never symbolic; tolerance 1e-9.",
-        "DESIGN.md section 3, C16",
+    "C01": (
+        "bounded exhaustive enumeration of network programs x value vectors (deviation-bounded over branch-boundary alphabets) x construction/edit histories; every real step compared component-wise with a reference METANET model",
+        "Exhaustive within bounds, on the implementation: " + Q + ". Each network is stepped by the real NumPy engine and evaluated through the real compiled CasADi function on 2 element-distinct base vectors and every single excursion (thorough: pairs, local full products over dependency cones); it is also reached from non-initial states (all lookups read after every construction call + a previous step with other values; a different already-stepped network edited in place: links swapped, links replaced, origins/destinations attached later). Every next density/speed/queue is compared with the reference model; branch coverage of every min/max/if is measured.",
+        "Reference model mc/refmodel.py (plain-float transcription of eqs. 3.1-3.11 and the documented boundary laws); excluded and counted: the model's own 0/0 or non-finite value, the documented log-ratio guard region, lane gains; tolerance 1e-9; values between alphabet points not covered.",
+        "DESIGN.md sections 3 (C01) and 8",
     ),
     "C02": (
-        "exhaustive enumeration of network programs x deviation-bounded value vectors, network-wide and per-node "
-        "vehicle balances computed from each real step's own inputs and outputs",
-        "Bounded exhaustive exploration on the implementation (same program/value space as C01, own run): after every "
-        "real NumPy step and every evaluation of the compiled SX (thorough: also MX) function the network balance and "
-        "one balance per node are checked; no reference model is involved, the oracle is an identity over the "
-        "function's own I/O.",
-        "Vectors with infinite controls are skipped; tolerance 1e-9 relative to the largest balance term; networks "
-        "above the bound are not built.",
-        "DESIGN.md section 3, C02",
+        "bounded exhaustive enumeration of network programs x value vectors x construction/edit histories; network-wide and per-node vehicle balances computed from each real step's own inputs and outputs",
+        "Same program/value/history space as C01 (own run). After every real NumPy step and every evaluation of the compiled function the network balance and one balance per node are checked; the oracle is an identity over the step's own I/O, no reference model.",
+        "Vectors with infinite controls skipped; tolerance 1e-9 relative to the largest balance term.",
+        "DESIGN.md sections 3 (C02) and 8",
     ),
-    "C10": (
-        "exhaustive enumeration of network programs; per program all (output, input) structural dependency bits of the "
-        "real compiled function (CasADi sparsity propagation) and all single-scalar perturbations of the NumPy step, "
-        "checked against an allowed-neighbour relation",
-        "Bounded exhaustive exploration on the implementation: for every valid topology/configuration within the bound "
-        "the real compiled function (SX and MX, with and without delta/phi) is examined for every output/input scalar "
-        "pair - a structural bit is a statement about all numeric inputs - and the NumPy path is perturbed one scalar "
-        "at a time over the alphabets from two base vectors; observed dependencies must be allowed by the METANET "
-        "neighbour relation derived from the spec alone.",
-        "Allowed relation from mc/refmodel.allowed_dependencies; CasADi's sparsity propagation is trusted to be a sound "
-        "over-approximation of real dependence (measured: never coarser than the allowed relation on the fixed tree).",
-        "DESIGN.md section 3, C10",
+    "C03": (
+        "bounded exhaustive enumeration of network programs x compilation variants (symbol type x compactness x extra outputs x symbolic parameters) x value vectors; compiled function vs NumPy step of a twin network",
+        "Exhaustive within bounds, on the implementation: every network of the quick/thorough program space is compiled by the real CasADi engine in 3-11 (quick) / all 24 (thorough) variants and evaluated on the base vectors and every single excursion (zero speeds, guard region, infinite limits); every next-state scalar is compared with the real NumPy step of a twin network.",
+        "Results located through the layout model (checked by C04); NaN on both sides at the model's own 0/0 counts as agreement; tolerance 1e-9.",
+        "DESIGN.md sections 3 (C03) and 8",
     ),
-    "C01": (
-        "exhaustive enumeration of network programs (shapes up to isomorphism x configurations within a deviation "
-        "bound) x value vectors (deviation-bounded over branch-boundary alphabets), every real step compared "
-        "component-wise with a reference METANET model",
-        "Bounded exhaustive exploration on the implementation: every valid topology with <=3 nodes/<=4 links (quick) "
-        "or <=4 nodes/<=5 links (thorough), every element kind in every position, 1..3 segments, VSL sets, delta/phi "
-        "present and absent; each network is stepped by the real NumPy engine and evaluated through the real compiled "
-        "CasADi function on the base vectors and all single (thorough: pair, local full product) excursions, and every "
-        "next density/speed/queue is compared with the reference model. Branch coverage of every min/max/if is "
-        "measured and reported.",
-        "Trusts the reference model mc/refmodel.py (plain-float transcription of eqs. 3.1-3.11 and the documented "
-        "boundary laws); excludes the model's own 0/0, the documented log-ratio guard region and lane gains; values "
-        "between alphabet points are not covered; tolerance 1e-9.",
-        "DESIGN.md section 3, C01",
+    "C04": (
+        "bounded exhaustive enumeration of network programs x construction orders x compilation variants x step histories; names, sizes, free symbols, values, feedback and level equivalence compared with a layout model derived from the construction calls",
+        "Exhaustive within bounds: for every network and 3 construction orders the real to_function result at compactness 0/1/2 and the documented alias levels (<=0, >1), with/without extra outputs, parameters and positivity-init options, SX and MX, after one step, after a re-step with caller symbols in reversed key order, and after a single step with caller symbols, must have exactly the names/sizes/order of the layout model, no free symbol, successors named after their state argument, element-distinct values equal to the NumPy twin, F(F(x)) fed back positionally equal to two NumPy steps, and equal result scalars across levels. Includes 12-segment links (two-digit segment indices).",
+        "Layout model mc/layout.py (documented concatenation; element order from a model of DiGraph insertion order; order of variables inside one element taken from the real element).",
+        "DESIGN.md sections 3 (C04) and 8",
     ),
-    "C07": (
-        "exhaustive enumeration of valid network programs x engines x symbol types x compactness levels x options x "
-        "boundary value vectors on the real code",
-        "Bounded exhaustive exploration on the implementation: every valid topology within the bound and every "
-        "configuration with <=1 deviating element is validated, stepped with NumPy (user arrays of both scalar "
-        "shapes, the engine's own variables) and CasADi SX/MX, compiled at compactness 0/1/2 with and without extra "
-        "outputs and with each positivity option, and evaluated on all single-excursion boundary vectors; oracle: no "
-        "exception, next.shape == state.shape, finite outputs unless the reference model itself meets 0/0.",
-        "Networks above (3,3) quick / (3,4)+(4,4) thorough are not built; infinite limits are C18's business.",
-        "DESIGN.md section 3, C07",
+    "C05": (
+        "bounded exhaustive enumeration of network programs x compactness x symbol type x positivity-init x names x edit histories x value vectors; self-consistency of reported flows with the same call's inputs and next states",
+        "Exhaustive within bounds, more_out=True: every reported link flow equals (clamped) rho*v*lanes of the input segment, every queued origin's next queue equals w + T(d - reported q_o), and the fed link's first-segment density balances with the reported flows - on every single-excursion vector (negative values when positivity-init is on), with all elements sharing one name, and on networks edited in place after a step.",
+        "Same T forwarded to to_function as to step; relations with an infinite reported flow skipped; layout model locates the results.",
+        "DESIGN.md sections 3 (C05) and 8",
     ),
     "C06": (
-        "explicit enumeration of all labelled graphs within a size bound, built on the real Network through two API "
-        "histories, is_valid compared with an independent nine-condition predicate on every graph",
-        "Bounded exhaustive exploration on the implementation: every labelled graph (valid or not, with shared "
-        "link/origin/destination objects, self-loops, isolated nodes) up to 3 nodes/3 links (quick) or 3 nodes/4 "
-        "links and 4 nodes/4 links (thorough) is constructed and validated; verdict, messages and raising mode are "
-        "compared with the reference predicate. Exhaustive within the bound, nothing beyond it.",
-        "Trusts networkx's DiGraph and the reference predicate in mc/graphmodel.py (nine conditions transcribed "
-        "from the documentation of Network.is_valid).",
-        "DESIGN.md section 3, C06",
+        "explicit enumeration of all labelled graphs within a size bound (valid or not, shared objects, equal names), each built through three API histories, is_valid compared with an independent nine-condition predicate",
+        "Exhaustive within bounds on the real Network: every labelled graph up to 3 nodes/3 links (quick) or 3 nodes/4 links and 4 nodes/4 links (thorough), every way of sharing link/origin/destination objects, every origin/destination kind, and a pass with all elements sharing one name; three construction histories (nodes first; reversed attachments + bulk links; is_valid() after every call with add_path-based construction). Verdict, messages and raising mode are compared with the predicate.",
+        "Predicate in mc/graphmodel.py transcribed from the documentation of is_valid; the property's 'randomly beyond the bound' clause is not implemented (sampling is another family).",
+        "DESIGN.md sections 3 (C06) and 8",
+    ),
+    "C07": (
+        "bounded exhaustive enumeration of valid network programs x engines x symbol types x compactness levels x options x boundary vectors x edit histories, plus all small graphs the predicate rejects",
+        "Exhaustive within bounds: every valid network is validated, stepped with NumPy (user arrays of both scalar shapes, the engine's own variables) and CasADi SX/MX, compiled at compactness 0/1/2 with/without extra outputs and with each positivity option, evaluated on all single-excursion boundary vectors, and also reached by editing an already stepped network in place; no exception, next.shape == state.shape, finite outputs unless the reference model itself meets 0/0. Every small graph the predicate calls invalid is probed: if validation accepts it, it must be steppable.",
+        "Single-element deviations get a lighter engine/level matrix in the quick tier; infinite limits are C18's business.",
+        "DESIGN.md sections 3 (C07) and 8",
     ),
     "C08": (
-        "stateless enumeration of all mutate/read API histories up to a length plus state-matching BFS over "
-        "(graph, memoised-entry set), every lookup compared with a recomputation from the graph at every step",
-        "Bounded exhaustive exploration of read-mutate-read histories on real Network objects: explorer A runs every "
-        "history m1 R1 .. mk (k<=3 quick, k<=4 thorough) over 20 mutating calls and 13 lookups without looking inside "
-        "the object; explorer B is an explicit-state BFS (depth 5 quick / 7 thorough) whose state is the graph plus "
-        "the set of memoised entries, with the staleness invariant checked in every state.",
-        "Universe of 3 nodes/2 links/2 origins/2 destinations; B's state merging assumes memoisation lives in the "
-        "instance __dict__ (A does not); ambiguous lookups under shared element objects accept any pair of the graph.",
-        "DESIGN.md section 3, C08",
+        "stateless enumeration of all mutate/read API histories up to a length plus state-matching BFS over (graph, memoised-entry set); every lookup compared with a recomputation from the graph at every step",
+        "Bounded exhaustive exploration of read-mutate-read histories on real Network objects: explorer A runs every history m1 R1 .. mk (k<=3 quick, k<=4 thorough) over 21 mutating calls (incl. generator arguments) and 13 lookups without looking inside the object; explorer B is an explicit-state BFS (depth 5 / 7) whose state is the graph plus the set of memoised entries, with the staleness invariant checked in every state.",
+        "Universe of 3 nodes/2 links/2 origins/2 destinations; B's merging assumes memoisation lives in the instance __dict__ (A does not); ambiguous lookups under shared objects accept any pair of the graph.",
+        "DESIGN.md sections 3 (C08) and 8",
     ),
     "C09": (
-        "exhaustive enumeration of construction-call histories up to a depth and of all path shapes up to a length, "
-        "real graph compared with a reference graph model after every call",
-        "Bounded exhaustive exploration on the implementation: all histories over 26 construction calls to depth 3 "
-        "(quick) / 4 (thorough) with graph==model after every call, and every path shape of length 0..5 (quick) / "
-        "0..6 (thorough) over 7 token kinds x origin x destination x 2 start networks; well-formed paths must build "
-        "the model graph, malformed ones must raise, and no non-Node may ever become a graph node.",
-        "Reference graph model in mc/graphmodel.py (later attachment replaces earlier); non-node/link tokens are an "
-        "Origin object and a str; partial mutation before a rejection is allowed.",
-        "DESIGN.md section 3, C09",
+        "exhaustive enumeration of construction-call histories up to a depth and of all path shapes up to a length; real graph compared with a reference graph model after every call",
+        "Bounded exhaustive exploration: all histories over 29 construction calls (lists and one-shot generators) to depth 3 / 4 with graph == model after every call, and every path shape of length 0..5 / 0..6 over 7 token kinds x origin x destination x 2 start networks; well-formed paths must build the model graph, malformed ones must raise, and no non-Node may ever become a graph node.",
+        "Reference graph model in mc/graphmodel.py; partial mutation before a rejection is allowed.",
+        "DESIGN.md sections 3 (C09) and 8",
+    ),
+    "C10": (
+        "bounded exhaustive enumeration of network programs (fresh and edited in place); all (output, input) structural dependency bits of the real compiled function and all single-scalar perturbations of the NumPy step checked against an allowed-neighbour relation",
+        "Exhaustive within bounds: for every network the real compiled function (SX and MX, with/without delta/phi; also after in-place edits of an already stepped network) is examined for every output/input scalar pair - a structural bit is a statement about all numeric inputs - and the NumPy path is perturbed one scalar at a time over the alphabets from two base vectors; observed dependencies must be allowed by the METANET neighbour relation derived from the spec alone.",
+        "Allowed relation from mc/refmodel.allowed_dependencies; CasADi sparsity propagation trusted as a sound over-approximation (measured ~94% tight).",
+        "DESIGN.md sections 3 (C10) and 8",
+    ),
+    "C11": (
+        "bounded exhaustive enumeration of network programs x option sets x value vectors with negative entries x engines x option-pair histories; metamorphic comparison against the plain step wrapped in harness clamps",
+        "Exhaustive within bounds: step(opts)(x) == clamp_next(plain(clamp_init(x))) with harness clamps on exactly the named quantities, for all single options, all pairs and all six (thorough: all 63 sets), NumPy and compiled SX/MX, on sign-flipped base vectors and single excursions over alphabets with negatives; all ordered pairs of 8 option sets on the SAME network objects; without options negative values must pass unclamped (reference model).",
+        "Where the plain result is NaN, max(0, NaN) is engine-defined and skipped; tolerance 1e-12.",
+        "DESIGN.md sections 3 (C11) and 8",
+    ),
+    "C12": (
+        "exhaustive enumeration of step/compile histories on the same network objects with caller-held inputs; purity invariants after every operation and comparison with the same step on a fresh network",
+        "Bounded exhaustive exploration of histories: every history up to length 2 over 22 operations and up to length 3 over 12 core operations (thorough 3 / 4) - steps with 3 engines x value sets (caller arrays/symbols, engine-created symbols) x option sets, other model parameters with the same caller values, simulation-loop feedback steps, to_function - on 9 networks incl. a cycle, downstream-first construction, ramps at interior/merge nodes; plus NumPy-only histories with all parameters as 0-d arrays. After every operation all caller-held arrays, dictionaries, symbols and parameters must be unchanged; every step must reproduce the same step on a fresh network (bitwise for NumPy, 1e-12 for two compilations).",
+        "Two value sets, two option sets, two parameter sets.",
+        "DESIGN.md sections 3 (C12) and 8",
+    ),
+    "C13": (
+        "exhaustive enumeration of engine-selection/step histories (incl. failing steps) with counting engine proxies; one-variable reference model of the current engine",
+        "Bounded exhaustive exploration on the real module state: every history up to length 3 / 4 over 15 operations (use by valid/invalid name, arbitrary object, three spy instances, get_current_engine, step with/without explicit engine, steps that must fail) on 3 networks. After every operation `current` must be get_current_engine() and sym_metanet.engine; a step must be computed entirely by the engine it must use (exact per-primitive call counts against a reference run, zero calls elsewhere, value types) and leave the selection untouched - also when it raises.",
+        "Calls between sibling static methods inside an engine are not counted.",
+        "DESIGN.md sections 3 (C13) and 8",
+    ),
+    "C14": (
+        "bounded exhaustive enumeration of network programs x all permutations of the construction calls / renamings / turn-rate scalings; metamorphic comparison of per-element results on the real code",
+        "Exhaustive within bounds: ALL permutations of the construction-call list (<=6 calls; else all orders within 2 transpositions; single-element deviations: <=4 calls / 1 transposition), nodes-first, bulk and add_path-based construction, 4 renamings (incl. all-equal names, library auto-names) and 4 scale factors per branching node, built through the real API and stepped (NumPy and compiled SX with flows); per-element next states and flows must equal the base network; recovered inflow shares must equal beta/sum(beta).",
+        "Tolerance 1e-12 (equal names switch off CasADi cse, which may change the last bit).",
+        "DESIGN.md sections 3 (C14) and 8",
+    ),
+    "C15": (
+        "full Cartesian product of argument alphabets per engine primitive (deviation-bounded for the 16-argument speed update), NumPy arrays in every shape the element layer produces vs casadi.DM; each NumPy primitive evaluated twice on the same argument objects",
+        "Exhaustive enumeration: for each of the 14 primitives plus max and vcat every combination of alphabet values (branch boundaries, zeros, infinities) and argument shapes is evaluated with both real engines; values must agree within 1e-9 and be finite whenever the primitive's own 0/0 does not occur; a second evaluation from the same argument objects must give the same value and leave the arguments untouched; step_speed for 1 and 3 segments to 1-2 (quick) / 3 (thorough) simultaneous excursions from two base tuples under all four None patterns.",
+        "Variables are passed as arrays/DM, parameters as plain numbers (what the element layer does).",
+        "DESIGN.md sections 3 (C15) and 8",
+    ),
+    "C16": (
+        "exhaustive enumeration of (network program, symbolic-parameter subset incl. per-link parameters, declaration order, compilation variant); symbolic function at parameter values vs twin compiled with numbers",
+        "Exhaustive within bounds: empty set, 12 singletons, the full set, round-robin pairs and per-link parameter sets on every network; all subsets of size <=2 (thorough: all 4096) and all declaration orders of two triples on the harness list; every result scalar (next states and flows) of the symbolic function at two parameter value sets equals the numeric twin; trailing argument names / stacked p follow the declared order; no free symbols.",
+        "Lanes and turn rates never symbolic; tolerance 1e-9.",
+        "DESIGN.md sections 3 (C16) and 8",
+    ),
+    "C17": (
+        "full Cartesian product of admissible argument alphabets for the origin-flow primitives on both engines, plus bounded exhaustive network programs (fresh and edited in place) x admissible vectors; inequality oracles",
+        "Exhaustive enumeration: every admissible (queue, demand, control, density, speed, capacity, T) tuple for mainstream, both metered variants and limited simplified origins on both engines, and the origin flows / next queues of every network on every admissible single-excursion vector (NumPy and compiled SX, also after in-place edits): 0 <= q <= d + w/T, q <= capacity, q = 0 at maximum density, w+ >= 0.",
+        "Tolerance 1e-9; unlimited simplified ramps and ideal origins have no bound.",
+        "DESIGN.md sections 3 (C17) and 8",
+    ),
+    "C18": (
+        "exhaustive enumeration of shapes x controlled element positions x neutral/finite control settings x value vectors; metamorphic equalities and a monotonicity inequality between paired real networks",
+        "Exhaustive within bounds: for every valid shape, every link as a VSL link (1..3 segments, every VSL-set option incl. empty and gapped) with infinite limits must equal the plain link (also on a second step from the same caller arrays, and under each single positivity-init option); a finite limit must not raise any next speed and must leave every other next state untouched; metered in/out with r=1 and limited simplified with infinite desired flow must coincide; a mainstream origin with limit inf, 1e6 or its first-segment speed must coincide; NumPy and compiled SX.",
+        "The controlled element is the only deviation from the base configuration; tolerance 1e-12 / 1e-9.",
+        "DESIGN.md sections 3 (C18) and 8",
+    ),
+    "C19": (
+        "exhaustive enumeration of API histories (per-element init/step incl. failing attempts, Network.step variants, topology edits after stepping) with to_function observed in every reached state; stateless to a length, state-matching BFS beyond",
+        "Bounded exhaustive exploration: all histories over 16 operations up to length 3 / 4 (SX and MX), BFS to depth 5 / 7 with states merged on a model key (initialised?, stepped with which parameters under which topology, which dependencies re-initialised or clamped since, failed attempts), and all histories up to length 5 / 7 on a minimal one-link family. In every state the model predicts RuntimeError or function; a returned function must have no free symbols and each element's results (on a vector with negative entries) must equal the NumPy twin of that element's most recent step.",
+        "Two network families; staleness model from the C10 dependency relation.",
+        "DESIGN.md sections 3 (C19) and 8",
     ),
 }
 
